@@ -192,11 +192,61 @@ func (lv *level) poisoned() interface{} {
 
 func flat(p interface{}) ref.V { return ref.V(reg.Flatten(p)) }
 
+// check asserts that the library value got (a pointer) is exactly want: same value coefficient by
+// coefficient, stored canonically (every base-field word sequence is < q: a result that is only
+// "right mod q" is not the library's value — Equal, IsZero, Bytes, Cmp all work on the stored
+// words), and indistinguishable from a freshly built element through the type's own Equal/IsZero.
 func (lv *level) check(t *rapid.T, what string, got interface{}, want ref.V) {
 	g := flat(got)
-	if !vecEq(g, ref.Red(lv.fam.naive[0], want)) {
-		t.Fatalf("%s: %s:\n got  %s\n want %s", lv.id, what, ref.String(g), ref.String(ref.Red(lv.fam.naive[0], want)))
+	w := ref.Red(lv.fam.naive[0], want)
+	if !vecEq(g, w) {
+		t.Fatalf("%s: %s:\n got  %s\n want %s", lv.id, what, ref.String(g), ref.String(w))
 	}
+	if msg := nonCanonical(reflect.ValueOf(got).Elem(), lv.fam.p, ""); msg != "" {
+		t.Fatalf("%s: %s: result is not stored canonically: %s (value %s)", lv.id, what, msg, ref.String(w))
+	}
+	if reflect.TypeOf(got) == reflect.PtrTo(lv.T) {
+		if hasMethod(lv.T, "Equal") && !reg.Bool(got, "Equal", lv.new(w)) {
+			t.Fatalf("%s: %s: Equal(result, reference value) is false although all coefficients agree (%s)", lv.id, what, ref.String(w))
+		}
+		if hasMethod(lv.T, "IsZero") && reg.Bool(got, "IsZero") != lv.N.IsZero(w) {
+			t.Fatalf("%s: %s: IsZero(result) = %v for the value %s", lv.id, what, !lv.N.IsZero(w), ref.String(w))
+		}
+	}
+}
+
+// nonCanonical walks a tower value down to the base-field elements (little-endian arrays of
+// machine words) and reports the first one whose stored integer is >= q.
+func nonCanonical(v reflect.Value, q *big.Int, path string) string {
+	switch v.Kind() {
+	case reflect.Struct:
+		for i := 0; i < v.NumField(); i++ {
+			if !v.Type().Field(i).IsExported() {
+				continue
+			}
+			if m := nonCanonical(v.Field(i), q, path+"."+v.Type().Field(i).Name); m != "" {
+				return m
+			}
+		}
+	case reflect.Array:
+		if k := v.Type().Elem().Kind(); k == reflect.Uint64 || k == reflect.Uint32 {
+			bits := uint(v.Type().Elem().Bits())
+			x := new(big.Int)
+			for i := v.Len() - 1; i >= 0; i-- {
+				x.Lsh(x, bits).Or(x, new(big.Int).SetUint64(v.Index(i).Uint()))
+			}
+			if x.Cmp(q) >= 0 {
+				return fmt.Sprintf("coordinate %s holds the words %s >= q", path, x.Text(16))
+			}
+			return ""
+		}
+		for i := 0; i < v.Len(); i++ {
+			if m := nonCanonical(v.Index(i), q, fmt.Sprintf("%s[%d]", path, i)); m != "" {
+				return m
+			}
+		}
+	}
+	return ""
 }
 
 func vecEq(a, b ref.V) bool {
@@ -480,3 +530,57 @@ func mix64(z uint64) uint64 {
 
 // uniP is uni over the closed range [0,max].
 func uniP(t *rapid.T, max int, label string) int { return uni(t, max+1, label) }
+
+
+// wordExponent draws an exponent from the 64-bit word lattice: four words (high..low), every
+// zero/non-zero pattern, each non-zero word from {1, 3, 2^63, 2^64-1, random}; so +-2^64,
+// +-3*2^64, +-2^128, +-2^192, (random word)*2^64 and exponents whose low / middle / high word
+// vanishes all occur. Exponentiation routines look at exponents through Uint64(), Bits(), Bytes()
+// and NAF/window recodings, whose boundary cases are the word boundaries; uniformly random
+// exponents never have a zero word. The class is "kwords:<pattern high..low>" (0 = zero word).
+func wordExponent(t *rapid.T, label string) (*big.Int, string) {
+	mask := 1 + uni(t, 15, label+"wm")
+	if uniP(t, 2, label+"single") == 0 {
+		mask = []int{2, 4, 8}[uni(t, 3, label+"ws")] // a single non-zero word above the low one
+	}
+	k := new(big.Int)
+	pat := ""
+	for w := 3; w >= 0; w-- {
+		k.Lsh(k, 64)
+		if mask>>uint(w)&1 == 0 {
+			pat += "0"
+			continue
+		}
+		pat += "x"
+		var word uint64
+		switch uni(t, 6, label+"wk") {
+		case 0:
+			word = 1
+		case 1:
+			word = 3
+		case 2:
+			word = 1 << 63
+		case 3:
+			word = ^uint64(0)
+		default:
+			word = rapid.Uint64().Draw(t, label+"wv") | 1<<uint(uni(t, 64, label+"wb"))
+		}
+		k.Or(k, new(big.Int).SetUint64(word))
+	}
+	cls := "kwords:" + pat
+	if uniP(t, 2, label+"wneg") == 0 {
+		k.Neg(k)
+		cls += ",neg"
+	}
+	return k, cls
+}
+
+// kwClasses splits the class string of wordExponent into evidence labels.
+func kwClasses(cls string) []string {
+	parts := strings.Split(cls, ",")
+	out := []string{parts[0]}
+	if len(parts) > 1 {
+		out = append(out, "kwords_negative")
+	}
+	return out
+}
